@@ -17,7 +17,8 @@ slices=()   # "engine flavour extra-args"
 case "$PROP" in
   C11) slices=("gcsim plain" "gcsim asan" "gcsim tsan") ;;
   C12) slices=("gcsim plain" "gcsim asan") ;;
-  C02|C03|C04|C05|C06) slices=("qhist plain") ;;
+  C02|C04) slices=("qhist plain" "qhist tsan --mode bigreg") ;;
+  C03|C05|C06) slices=("qhist plain") ;;
   C17|C18) slices=("clirun plain") ;;
   C19) slices=("fssim plain") ;;
   C20) slices=("updsim plain") ;;
@@ -28,9 +29,9 @@ rc=0
 i=0
 for sl in "${slices[@]}"; do
   set -- $sl
-  engine="$1"; flavour="$2"
+  engine="$1"; flavour="$2"; shift 2; extra="$*"
   bin="$(./build.sh "$engine" "$flavour")" || { echo "build of $engine/$flavour failed" >&2; exit 2; }
-  "$bin" --property "$PROP" --tier "$TIER" --seed "$SEED" --flavour "$flavour" --fragment "$FR/$i.json" --replay-dir "$RPL"
+  "$bin" --property "$PROP" --tier "$TIER" --seed "$SEED" --flavour "$flavour" --fragment "$FR/$i.json" --replay-dir "$RPL" $extra
   r=$?
   if [ $r -eq 1 ]; then rc=1; elif [ $r -ne 0 ] && [ $rc -ne 1 ]; then rc=2; fi
   i=$((i+1))
